@@ -30,7 +30,7 @@ def _work(unit):
         site = core.lib_site(exc)
         if site == 'harness':
             part.counters['HARNESS_ERROR'] = 1
-            part.samples.append(traceback.format_exc()[-1500:])
+            part.errors.append(f'unit={unit!r}\n' + traceback.format_exc()[-2500:])
         else:
             part.violation(_MOD.PID, 'unexpected-exception', site, type(exc).__name__,
                            {'trace': traceback.format_exc()[-1200:]}, observed=core.exc_text(exc),
@@ -78,10 +78,8 @@ def main(argv=None):
 
     if total.counters.get('HARNESS_ERROR'):
         print(f'HARNESS-ERROR property={pid}: exception inside the checking code', file=sys.stderr)
-        for s in total.samples:
-            if isinstance(s, str) and 'Traceback' in s:
-                print(s, file=sys.stderr)
-                break
+        for s in total.errors[:2]:
+            print(s, file=sys.stderr)
         return 2
 
     # nontriviality guards declared by the property (harness errors, not violations)
